@@ -109,17 +109,25 @@ fn verify_match_rule(
             };
 
             for src_path in src_artifact_queue {
-                let src_base_path = src_path
-                    .value()
-                    .strip_prefix(&src_prefix)
-                    .unwrap_or_else(|| src_path.value());
+                let src_base_path =
+                    match src_path.value().strip_prefix(&src_prefix) {
+                        Some(base) => base,
+                        // the artifact is not below the source prefix,
+                        // so this rule does not apply to it
+                        None => continue,
+                    };
                 let src_base_path =
                     VirtualTargetPath::new(src_base_path.to_string())
                         .expect("Unexpected VirtualTargetPath creation failed");
 
-                if let Err(e) = src_base_path.matches(pattern.value()) {
-                    warn!("match failed: {}", e.to_string());
-                    continue;
+                match src_base_path.matches(pattern.value()) {
+                    Ok(true) => {}
+                    // the artifact does not match the rule's pattern
+                    Ok(false) => continue,
+                    Err(e) => {
+                        warn!("match failed: {}", e.to_string());
+                        continue;
+                    }
                 }
 
                 let dst_path = {
@@ -260,6 +268,16 @@ pub(crate) fn apply_rules_on_link(
                     }
                 }
                 ArtifactRule::Disallow(_) => {
+                    // a pattern that cannot be interpreted must not silently
+                    // disallow nothing
+                    glob::Pattern::new(rule.pattern().value()).map_err(
+                        |e| {
+                            Error::ArtifactRuleError(format!(
+                                "invalid pattern in rule {:?} of {}: {}",
+                                rule, item_name, e
+                            ))
+                        },
+                    )?;
                     if !filtered.is_empty() {
                         return Err(Error::ArtifactRuleError(format!(
                             r#"artifact verification failed for {:?} in DISALLOW, because {:?} is disallowed by rule {:?} in {}"#,
